@@ -45,16 +45,17 @@ Qed.
 (** * The headline: every step of a clean history meets its specification *)
 Theorem run_ok : forall c mx pool, WF c -> HintSound c mx pool ->
   forall h st past, Inv c pool st past -> clean_from c mx pool st h = true ->
-  run_spec c mx pool st past h /\ run_lookup c mx pool st past h /\
+  run_spec c mx pool st past h /\ run_lookup c mx pool st past h /\ run_exact c mx pool st past h /\
   exists past', Inv c pool (final c mx pool st h) past'.
 Proof.
   intros c mx pool Hwf Hh. induction h as [|o r IH]; intros st past HI Hc.
-  - simpl. split; auto. split; auto. exists past. exact HI.
+  - simpl. split; auto. split; auto. split; auto. exists past. exact HI.
   - rewrite clean_from_cons in Hc. rewrite final_cons. simpl.
     destruct (step c mx pool st o) as [[st1 out] bare] eqn:Es.
     apply andb_true_iff in Hc. destruct Hc as [Hb Hc]. destruct bare; [discriminate|].
     destruct (step_all c mx pool o st past st1 out Hwf Hh HI Es) as (Hspec & HI1 & Hsees).
-    destruct (IH st1 _ HI1 Hc) as (A & B & C). auto.
+    destruct (IH st1 _ HI1 Hc) as (A & B & C & D).
+    split; [auto|]. split; [split; [eapply told_sees; eauto | exact B]|]. split; [split; [eapply told_exact; eauto | exact C]|exact D].
 Qed.
 
 Theorem isolation : forall c mx pool h, WF c -> HintSound c mx pool -> clean c mx pool h = true ->
@@ -64,6 +65,21 @@ Proof. intros c mx pool h Hwf Hh Hc. apply (run_ok c mx pool Hwf Hh h init [] (I
 Theorem lookup_filtered : forall c mx pool h, WF c -> HintSound c mx pool -> clean c mx pool h = true ->
   run_lookup c mx pool init [] h.
 Proof. intros c mx pool h Hwf Hh Hc. apply (run_ok c mx pool Hwf Hh h init [] (Inv_init c pool) Hc). Qed.
+
+Theorem lookup_exact : forall c mx pool h, WF c -> HintSound c mx pool -> clean c mx pool h = true ->
+  run_exact c mx pool init [] h.
+Proof. intros c mx pool h Hwf Hh Hc. apply (run_ok c mx pool Hwf Hh h init [] (Inv_init c pool) Hc). Qed.
+
+(** every hop of [SpanRef::parent] keeps the FilterId of the SpanRef it started from, and lands on the nearest real
+    ancestor that FilterId does not disable: climbing never leaves the layer's own view *)
+Theorem parent_hop : forall st r p, sr_parent st r = Some p ->
+  snd p = snd r /\ visible st (snd r) (fst p) = true /\
+  Some (fst p) = hd_error (filter (visible st (snd r)) (above st (fst r))).
+Proof.
+  intros st r p H. split; [eapply sr_parent_filter; eauto|]. split; [eapply sr_parent_visible; eauto|].
+  unfold sr_parent in H. rewrite (span_parent_by st (snd r) (visible st (snd r)) (fun _ => eq_refl) (Some (fst r))) in H.
+  unfold parent_by in H. destruct (hd_error _) as [x|]; inversion H; reflexivity.
+Qed.
 
 (** * The carrying invariant: between the operations of a clean history the per-thread FilterState is empty *)
 Lemma clean_from_app : forall c mx pool h1 h2 st,
@@ -78,7 +94,7 @@ Theorem bitmap_clean : forall c mx pool h1 h2, WF c -> HintSound c mx pool -> cl
   st_bits (final c mx pool init h1) = 0 /\ st_pending (final c mx pool init h1) = None.
 Proof.
   intros c mx pool h1 h2 Hwf Hh Hc. rewrite clean_is_clean_from in Hc. apply clean_from_app in Hc.
-  destruct (run_ok c mx pool Hwf Hh h1 init [] (Inv_init c pool) Hc) as (_ & _ & past' & HI).
+  destruct (run_ok c mx pool Hwf Hh h1 init [] (Inv_init c pool) Hc) as (_ & _ & _ & past' & HI).
   split; [apply (inv_bits _ _ _ _ HI) | apply (inv_pending _ _ _ _ HI)].
 Qed.
 
@@ -312,3 +328,18 @@ Proof.
       split; [ vm_compute; left; reflexivity |];
       split; [ vm_compute; reflexivity | not_delivered ] ].
 Qed.
+
+(** * Climbing past a rejected ancestor: DEBUG conn > INFO request > INFO handler, leaf 1 behind a per-layer
+      LevelFilter::INFO, leaf 2 plain (corpus/C07/parent_chain_nested.json) *)
+Definition climb_stack : coll := With (Rec 2 nov) (With (Filt 0 (Rec 1 nov) (FLevel 3)) Registry).
+Definition climb_history : list op := [OSpan 24; OEnter 0; OSpan 21; OEnter 1; OSpan 22].
+Definition chain_seen (n : N) (out : list obs) : list (list N * list N * list N) :=
+  flat_map (fun o => match o with
+                     | ODeliver n' _ _ _ _ nav => if n =? n' then [(nv_chain nav, nv_pscope nav, nv_root nav)] else []
+                     | _ => [] end) out.
+Example climb_example :
+  clean (build climb_stack) 5 pool45 climb_history = true /\
+  (let out := nth 4 (run_obs (build climb_stack) 5 pool45 climb_history) [] in
+   (* on_new_span of handler (span 3): the filtered leaf climbs to request (2) and stops; the plain leaf goes on to conn (1) *)
+   chain_seen 1 out = [([2], [2], [2; 3])] /\ chain_seen 2 out = [([2; 1], [2; 1], [1; 2; 3])]).
+Proof. split; [vm_compute; reflexivity | split; vm_compute; reflexivity]. Qed.
